@@ -493,6 +493,20 @@ func fieldPath(t types.Type, name string) ([]int, *types.Var) {
 }
 
 func (x *Exec) evalSel(env *Env, c *Clause, e *Expr) (SymVal, types.Type) {
+	// package-qualified identifier (pkg.Name)
+	if b := e.Args[0]; b.Kind == "ident" {
+		_, bound := env.binds[b.Op]
+		_, ghost := env.st.ghost[b.Op]
+		if !bound && !ghost && x.findLocal(b.Op) == nil {
+			if pk := x.P.Pkgs[env.pkg]; pk == nil || pk.Types.Scope().Lookup(b.Op) == nil {
+				if tp := x.P.FindPackage(b.Op); tp != nil {
+					if obj := tp.Scope().Lookup(e.Op); obj != nil {
+						return x.objValue(env, c, obj)
+					}
+				}
+			}
+		}
+	}
 	bv, bt := x.eval(env, c, e.Args[0])
 	if bt == nil {
 		x.specFail(c, "field %s of a value without Go type", e.Op)
